@@ -7,6 +7,26 @@ use crate::grammar::*;
 use std::collections::{BTreeSet, HashSet};
 
 pub(super) fn detect_cycles(ast: &Ast, diagnostics: &mut Diagnostics) {
+    // Type aliases cannot refer to themselves through sequences, dictionaries, or results (ex: `typealias A = Sequence<A>`).
+    // Such a type contains itself, so we must stop here if we find any; the checks below would never finish on them.
+    let mut found_self_referential_alias = false;
+    for node in ast.as_slice() {
+        if let Node::TypeAlias(type_alias) = node {
+            let type_alias = type_alias.borrow();
+            if anonymous_type_contains_itself(&type_alias.underlying, &mut Vec::new()) {
+                Diagnostic::new(Error::SelfReferentialTypeAliasNeedsConcreteType {
+                    identifier: type_alias.module_scoped_identifier(),
+                })
+                .set_span(type_alias.span())
+                .push_into(diagnostics);
+                found_self_referential_alias = true;
+            }
+        }
+    }
+    if found_self_referential_alias {
+        return;
+    }
+
     let mut cycle_detector = CycleDetector {
         type_being_checked: None,
         dependency_stack: Vec::new(),
@@ -34,6 +54,30 @@ pub(super) fn detect_cycles(ast: &Ast, diagnostics: &mut Diagnostics) {
             check_for_inheritance_cycle(interface_def.borrow(), diagnostics);
         }
     }
+}
+
+/// Returns true if the provided type is a sequence, dictionary, or result that (transitively) uses itself as one of its
+/// element types. `seen` holds the anonymous types we're currently inside. Named types are terminal for this check;
+/// cycles that run through structs and enums are found by the [`CycleDetector`].
+fn anonymous_type_contains_itself<'a>(type_ref: &'a TypeRef, seen: &mut Vec<&'a dyn Type>) -> bool {
+    let element_types: Vec<&TypeRef> = match type_ref.concrete_type() {
+        Types::Sequence(sequence) => vec![&sequence.element_type],
+        Types::Dictionary(dictionary) => vec![&dictionary.key_type, &dictionary.value_type],
+        Types::ResultType(result_type) => vec![&result_type.success_type, &result_type.failure_type],
+        _ => return false,
+    };
+
+    let this_type = type_ref.definition();
+    if seen.iter().any(|seen_type| std::ptr::addr_eq(*seen_type, this_type)) {
+        return true;
+    }
+
+    seen.push(this_type);
+    let contains_itself = element_types
+        .into_iter()
+        .any(|element_type| anonymous_type_contains_itself(element_type, seen));
+    seen.pop();
+    contains_itself
 }
 
 /// Reports an error if the provided interface (transitively) inherits from itself.
